@@ -208,3 +208,21 @@ PROPS["C04"] = {
         Leg("message", "c04", "^TestMessage$", checks=(4000, 40000), shards=(2, 16), tests=["message"]),
     ],
 }
+
+PROPS["C08"] = {
+    "title": "Ranges, phase ranges and range rates equal the standard's formulas",
+    "level": "exploration",
+    "technique": "property-based testing (rapid) against exact rational arithmetic (math/big.Rat) with a stated tolerance, plus the MSM4==MSM7 metamorphic relation (bit-identical floats)",
+    "level_text": ("Generated-input exploration against an exact reference: every reported quantity is compared with the standard's formula evaluated in exact "
+                   "rationals (tolerance 4*2^-52 relative + 1e-9), over all field extremes, invalid markers, all four constellations and every signal id with a "
+                   "documented frequency; cells are built with the exported constructors and, for a quarter of the cases, obtained by decoding an encoded one-cell "
+                   "message. The field space (2^8 x 2^10 x 2^20 x 2^24 ...) is sampled with boundary bias, not exhausted."),
+    "rule": ("Cases: (constellation, signal id with a frequency, MSM4/MSM7, whole ms {0, 254, 255, uniform}, fractional {0,1,512,1023,uniform}, fine range / fine phase / rough "
+             "rate / fine rate from {0, max, min='invalid', -1, min+1, uniform}, constructed vs decoded, log level); cases whose exact true range would be negative are "
+             "constructed out. Non-trivial = rough range valid and fine range non-zero and valid; distinct = distinct field tuple."),
+    "assumptions": ["golden frequency table in c08_test.go transcribes the documented plan (GPS L1/L2/L5, Galileo E1/E6/E5b/E5ab/E5a, GLONASS G1/G2 base, BeiDou B1/B3/B2)", "speed of light 299792458 m/s", "Go toolchain, rapid v1.3.0"],
+    "min_evals": {"quick": 50000, "thorough": 2000000},
+    "legs": [
+        Leg("cell", "c08", "^TestCell$", checks=(60000, 500000), shards=(2, 16), tests=["cell"]),
+    ],
+}
